@@ -99,9 +99,9 @@ type c40Input struct {
 }
 
 var (
-	c40Once  sync.Once
-	c40G     *c40Graph
-	c40Err   error
+	c40Once   sync.Once
+	c40G      *c40Graph
+	c40Err    error
 	c40Input0 c40Input
 )
 
@@ -200,9 +200,26 @@ func c40WriteGen(root string, g *c40Graph, in c40Input) error {
 	b.WriteString("Lemma generated_has_ranking : find_ranking generated_edges <> None.\nProof. vm_compute. discriminate. Qed.\n\n")
 	b.WriteString("Lemma generated_edges_ranked : exists rk, forall a b, In (a, b) generated_edges -> rank_of rk a < rank_of rk b.\n")
 	b.WriteString("Proof.\n  destruct (find_ranking generated_edges) as [rk|] eqn:E.\n  - exists rk. apply find_ranking_sound. exact E.\n  - exfalso. apply generated_has_ranking. exact E.\nQed.\n\n")
-	fmt.Fprintf(&b, "(* calls made while a lock is held that the translator does not follow: %d *)\n", len(g.UnfollowedHeld))
+	// exclusions: what the translator does not follow, while some lock is held
+	kinds := map[string]int{}
 	for _, u := range g.UnfollowedHeld {
-		fmt.Fprintf(&b, "(* %-10s %s: %s holding %s *)\n", u.Kind, c40Comment(u.Func), c40Comment(u.Call), strings.Join(u.Held, ","))
+		kinds[u.Kind]++
+	}
+	var ks []string
+	for k := range kinds {
+		ks = append(ks, k)
+	}
+	sort.Strings(ks)
+	fmt.Fprintf(&b, "(* calls made while a lock is held (directly or in a caller) that are not followed: %d\n", len(g.UnfollowedHeld))
+	for _, k := range ks {
+		fmt.Fprintf(&b, "     %-50s %d\n", k, kinds[k])
+	}
+	b.WriteString("   the complete list with positions is build/C40/lockgraph.json; below, the direct\n   interface / function-value calls under a lock (callbacks, handlers, loggers): *)\n")
+	for _, u := range g.UnfollowedHeld {
+		if u.Kind == "external" || strings.Contains(u.Call, "(reached through") {
+			continue
+		}
+		fmt.Fprintf(&b, "(* %-10s %s: %s holding %s *)\n", strings.SplitN(u.Kind, " ", 2)[0], c40Comment(u.Func), c40Comment(u.Call), strings.Join(u.Held, ","))
 	}
 	dir := filepath.Join(root, "coq", "Gen")
 	if err := os.MkdirAll(dir, 0o755); err != nil {
@@ -553,7 +570,7 @@ func init() {
 	Register(Spec[c40StressCase]{
 		ID: "C40", Suite: "stress", CoqImports: []string{"Check.C40"},
 		CoqType: "unit", CoqRun: "Check.C40.run_stress",
-		Coq: func(c40StressCase) string { return "tt" },
+		Coq:   func(c40StressCase) string { return "tt" },
 		Quick: 6, Thorough: 200, Parallel: 2, Timeout: 300 * time.Second,
 		Gen: func(r *Rand, i int) c40StressCase {
 			return c40StressCase{Workers: r.Range(2, 8), Rounds: r.Range(3, 12), Seed: r.U64() % 1000000}
